@@ -17,6 +17,9 @@ pub fn limits() -> Limits {
 
 /// Outside the claim? (declared work above the budget, measured by the reference walker)
 pub fn over_budget(job: &Job) -> bool {
+    if std::env::var("VERIF_NO_WALKER").is_ok() {
+        return false; // debugging aid: rely on the worker's observed counters only
+    }
     match job.mode {
         0 => {
             let w = reader::declared_work(&job.bytes, &limits());
@@ -61,6 +64,12 @@ pub fn over_budget(job: &Job) -> bool {
 
 /// Execute one job in the sandbox and judge it.
 pub fn judge(job: &Job) -> CaseResult {
+    judge_with(job, false)
+}
+
+/// `attribute`: after a process death, find the API call that kills the worker (13 more executions);
+/// done in replay mode only, the search itself keys deaths by signal.
+pub fn judge_with(job: &Job, attribute: bool) -> CaseResult {
     if over_budget(job) {
         return Ok(Meta::new(false).label(true, "excluded-over-budget"));
     }
@@ -73,11 +82,12 @@ pub fn judge(job: &Job) -> CaseResult {
     };
     match sandbox::run_job(job) {
         Verdict::Returned(n) => Ok(Meta::new(false).label(n > 0, "returned")),
+        Verdict::OverBudget => Ok(Meta::new(false).label(true, "excluded-over-budget").label(true, "excluded-over-budget-observed-by-worker")),
         Verdict::Panic(api, site, msg) => Err(Fail::new(format!("C08/panic/{api}/{site}"), format!("{modename} input of {} bytes: {api} panicked: {msg} at {site}", job.bytes.len()))),
         Verdict::Died(how) => {
-            let api = sandbox::attribute(job).map_or("unattributed".to_string(), |b| API_NAMES[b as usize].to_string());
+            let api = if attribute { sandbox::attribute(job).map_or("unattributed".to_string(), |b| API_NAMES[b as usize].to_string()) } else { "replay the saved case for the API attribution".to_string() };
             let short: String = how.split(' ').take(2).collect::<Vec<_>>().join("-");
-            Err(Fail::new(format!("C08/process-died/{short}/{api}"), format!("{modename} input of {} bytes kills the process: {how} (in {api})", job.bytes.len())))
+            Err(Fail::new(format!("C08/process-died/{short}/{modename}"), format!("{modename} input of {} bytes kills the process: {how} ({api})", job.bytes.len())))
         }
         Verdict::Timeout => Err(Fail::new("C08/INFRA/timeout", format!("{modename} input of {} bytes: no answer within {:?}", job.bytes.len(), sandbox::CASE_TIMEOUT))),
         Verdict::Infra(e) => Err(Fail::new("C08/INFRA/worker", e)),
@@ -243,7 +253,7 @@ pub fn crafted_corpus() -> Vec<Crafted> {
                 arch(&format!("leaf-cycle-{depth}"), a);
             }
         }
-        for n in [10usize, 100, 1000, 5000, 100_000] {
+        for n in [10usize, 100, 1000, 3000, 6000, 9500, 100_000] {
             arch(&format!("leaf-chain-{n}"), chain_archive(c, n));
         }
         // root pointing into the root (pointer with leaf offset such that it lands on the root itself)
@@ -526,7 +536,7 @@ pub fn run(ctx: &Ctx) {
         Ok(Meta::new(!ex && c.job.bytes.len() >= 127).label(ex, "excluded-over-budget").label(c.kind.starts_with("prefix"), "prefix").label(c.kind.starts_with("byte"), "byte-substitution"))
     });
     // (3)
-    run_proptest(ctx, "structure-aware-mutation", PtCfg { lanes: ctx.lanes, cases: ctx.tier.pick(1500, 40_000), max_shrink: 600 }, || mut_strategy(ctx.tier.pick(120, 600)), check_mut);
+    run_proptest(ctx, "structure-aware-mutation", PtCfg { lanes: ctx.lanes, cases: ctx.tier.pick(1500, 40_000), max_shrink: 48 }, || mut_strategy(ctx.tier.pick(120, 600)), check_mut);
     // timeouts / worker problems are infrastructure
     for c in ["crafted-hazard", "prefix", "byte-substitution", "varint-field-mutation", "header-field-mutation", "byte-level-mutation", "with-leaves"] {
         ctx.rec.floor(c, 20);
@@ -535,15 +545,18 @@ pub fn run(ctx: &Ctx) {
 
 pub fn replay(sub: &str, case: &Value) -> Option<CaseResult> {
     match sub {
-        "crafted-hazards" => Some(check_crafted(&super::de(case)?)),
+        "crafted-hazards" => {
+            let c: Crafted = super::de(case)?;
+            Some(judge_with(&c.job, true).map(|_| Meta::new(true)))
+        }
         "every-prefix-and-byte-substitution" => {
             let c: ByteCase = super::de(case)?;
-            Some(judge(&c.job).map(|_| Meta::new(true)))
+            Some(judge_with(&c.job, true).map(|_| Meta::new(true)))
         }
         "structure-aware-mutation" => Some(check_mut(&super::de(case)?)),
         "fuzz-corpus" | "job" => {
             let j: Job = super::de(case)?;
-            Some(judge(&j).map(|_| Meta::new(true)))
+            Some(judge_with(&j, true).map(|_| Meta::new(true)))
         }
         _ => None,
     }
